@@ -10,7 +10,25 @@ RULE = ('transition relations and sets over 1-3 primed/unprimed pairs by truth t
         'quantified variables x names/levels as keys; non-trivial = relation and set non-constant')
 EXHAUSTIVE = {'quick': False, 'thorough': False}
 ASSUMES = ['the rename map is injective (pairs); keys disjoint from values',
-           'dynamic reordering disabled (image/preimage are not decorated, see C09)']
+           'dynamic reordering is enabled (threshold already reached) around a quarter of the calls: '
+           'since fix 127a6e6 no request is served inside image/preimage, the order and the result '
+           'are the same as with reordering disabled']
+
+
+def _dyn_on(M, rng):
+    if rng.random() < 0.25:
+        M.op('configure', True)
+        M.op('set_last_len', 1)
+        return True
+    return False
+
+
+def _dyn_off(M, on):
+    if on:
+        if M.b._last_len is None:
+            M.ctx.violation('C13:reordering-disabled',
+                            'dynamic reordering is disabled after image/preimage', M.case())
+        M.op('configure', False)
 
 
 def adjacent_orders(npairs, rng, limit=None):
@@ -35,7 +53,8 @@ def adjacent_orders(npairs, rng, limit=None):
 
 def run_stream(ctx, npairs, order, cases, image_only=False):
     n = 2 * npairs
-    M = Mgr(ctx, f'relprod pairs={npairs} order={order}', n, order)
+    aged = ctx.rng.random() < 0.5
+    M = Mgr(ctx, f'relprod pairs={npairs} order={order} aged={aged}', n, order, aged=aged, keep_order=True)
     rng = ctx.rng
     unprimed = [2 * i for i in range(npairs)]
     primed = [2 * i + 1 for i in range(npairs)]
@@ -60,7 +79,9 @@ def run_stream(ctx, npairs, order, cases, image_only=False):
                     rn = ren if kind == 'n' else {lv[k]: lv[v] for k, v in ren.items()}
                     qkind = rng.choice(['n', 'l'])
                     qq = qs if qkind == 'n' else [lv[v] for v in qs]
+                    on = _dyn_on(M, rng)
                     r = M.op('preimage', trans, sset, kind, rn, qkind, qq, fa)
+                    _dyn_off(M, on)
                     target_renamed = T.rename(tset, n, ren)
                     conj = tt_trans & target_renamed
                     exp = T.forall(conj, n, qs) if fa else T.exists(conj, n, qs)
@@ -80,7 +101,9 @@ def run_stream(ctx, npairs, order, cases, image_only=False):
             rn = ren if kind == 'n' else {lv[k]: lv[v] for k, v in ren.items()}
             qkind = rng.choice(['n', 'l'])
             qq = qs if qkind == 'n' else [lv[v] for v in qs]
+            on = _dyn_on(M, rng)
             r = M.op('image', trans, sset, kind, rn, qkind, qq, fa)
+            _dyn_off(M, on)
             conj = tt_trans & tset
             qd = T.forall(conj, n, qs) if fa else T.exists(conj, n, qs)
             exp = T.rename(qd, n, ren)
